@@ -24,6 +24,20 @@ CLAIMED["C13"] = ("ChunkCache",
     "Exhaustive model checking of every interleaving of two threads at lock/file-system granularity, plus conformance: every commit / removal event carries num_items and total_bytes read under the lock and must equal the model's values; quiescent directory listings must contain no file the model does not track and, after read-back, must equal the tracked set and byte total.",
     "eviction choice and find_match choice are logged, not predicted; I/O errors may end any operation.",
     "5.7, 6 C13")
+
+_UP_TECH = "TLC model checking of the pipeline design model Upload.tla (dedup / aggregation / background puts / finalize; negative control FixF1=FALSE); model behaviours (Gen_Upload) and randomized multi-session scenarios replayed through FileUploadSession over an observing, fault-injecting store under five size-limit configurations; recorded events validated against the observation machine UploadObs.tla via Trace_Upload.tla with the clauses of this property enabled"
+_UP_NOTE = "hashes are interned ids; reference hashes come from the harness's independent implementations (merkleref, sha2, gearref); store = LocalClient behind an observing client; limits via the repository's HF_XET_* variables (debug builds)."
+for _pid, _text in {
+    "C01": "Every UpDownload event (whole file and byte ranges through the pointer's string form) must carry an output whose interned digest equals that of the expected slice, and every uploaded file record must flatten, through the xorbs actually stored, to the file's chunk-id sequence.",
+    "C02": "Every put must be consistent with its declared boundaries and chunk hashes and be named by the independently recomputed xorb hash (function + injective); every file record must reference stored xorbs with in-range indices and byte counts, verification hashes, file hash and SHA-256 equal to the reference values; every stored xorb file must pass both validators and re-hash to its name.",
+    "C03": "Every Finish must return the reference file hash of (content, salt) and the byte count; the map (content, salt) -> (hash, size) is checked to be a function and injective over all scenarios of a run (feed partitions, dedup state, concurrency, ingestion block sizes vary).",
+    "C11": "After a successful finalize the CAS sections readable from the local shard cache must list every xorb the session stored; a later Finish whose chunks are all in the cache and that reports no fragmentation prevention must report zero new bytes.",
+    "C14": "Per file: size = total = bytes fed, new + deduped = total (bytes and chunks), the per-position decisions of the deduper partition the file, prevented counters equal the new chunks covered by a rejected hit; per session: sums of its files, xorb/shard upload bytes equal what the store accepted.",
+    "C15": "Every PutStart must be non-empty, within the configured chunk and byte limits with every chunk within the maximum chunk size; no uploaded file record may hold the zero xorb hash.",
+    "C16": "Every ShardStart must reference only xorbs already stored; a session with an injected put or shard failure must report an error from add_data / finish / finalize and never reach a successful Finalize; a successful Finalize requires every finished file's record to be uploaded with all its xorbs stored.",
+}.items():
+    CLAIMED[_pid] = ("Upload", _UP_TECH, "Exhaustive model checking of the design model (2 files x 3 chunks, one injected failure: RoundTrip, NoSwallowedFailure, ShardAfterXorbs, Limits, Metrics, DedupComplete) plus conformance on recorded executions. " + _text, _UP_NOTE, "5.5, 6 " + _pid)
+
 PENDING_REASON = "check not built yet in this round (planned in DESIGN.md section 6); no claim is made"
 
 checks = []
